@@ -159,7 +159,8 @@ theorem isPruned_iff {pl : PruneList} (h : Inv pl) (p : Nat) :
       unfold Bm.rank at hx
       rw [← filter_le_eq_take _ h.sorted] at hx
       simpa using (List.mem_filter.1 hx).2
-    have hdrop := drop_countP_gt (1 + p) h.sorted
+    have hdrop : ∀ x ∈ pl.bitmap.drop (Bm.rank pl.bitmap (1 + p)), 1 + p < x :=
+      drop_countP_gt (1 + p) h.sorted
     have hany1 : (pl.bitmap.take (Bm.rank pl.bitmap (1 + p))).any (interior · p) = false := by
       rw [List.any_eq_false]
       intro x hx
@@ -178,7 +179,6 @@ theorem isPruned_iff {pl : PruneList} (h : Inv pl) (p : Nat) :
     have hdisj : List.Pairwise (fun a b => a ≤ bintreeLeftmost (b - 1))
         (pl.bitmap.drop (Bm.rank pl.bitmap (1 + p))) :=
       List.Pairwise.sublist (List.drop_sublist _ _) h.disj
-    unfold Bm.rank at hdrop
     generalize pl.bitmap.drop (Bm.rank pl.bitmap (1 + p)) = d at hdrop hdisj ⊢
     cases d with
     | nil => simp
@@ -195,6 +195,31 @@ theorem isPruned_iff {pl : PruneList} (h : Inv pl) (p : Nat) :
       have e1 : decide (p < r - 1 + 1) = true := by simp; omega
       have e2 : decide (p < r - 1) = true := by simp; omega
       simp only [e1, e2, Bool.and_true]
+
+/-- a pruned root is never strictly inside another pruned subtree -/
+theorem root_not_compacted {pl : PruneList} (h : Inv pl) (x : Nat) (hx : x ∈ pl.bitmap) :
+    compactedP pl.bitmap (x - 1) = false := by
+  unfold compactedP
+  rw [List.any_eq_false]
+  intro y hy
+  have hx1 := h.pos x hx
+  have hy1 := h.pos y hy
+  unfold interior
+  by_cases hxy : x < y
+  · -- x sits before y in the list, so the subtree of y starts right of x
+    obtain ⟨i, hi, rfl⟩ := List.mem_iff_getElem.1 hx
+    obtain ⟨j, hj, rfl⟩ := List.mem_iff_getElem.1 hy
+    have hij : i < j := by
+      by_cases hij : i < j
+      · exact hij
+      · exfalso
+        rcases Nat.lt_or_ge j i with hji | hji
+        · have := List.pairwise_iff_getElem.1 h.sorted j i hj hi hji; omega
+        · have : i = j := by omega
+          subst this; omega
+    have := List.pairwise_iff_getElem.1 h.disj i j hi hj hij
+    simp; omega
+  · simp; omega
 
 /-- `is_compacted` for a position outside the leaf set: not a root, strictly inside a pruned subtree -/
 theorem isCompacted_iff {H : Type} {b : Backend H} (h : Inv b.pruneList) (p : Nat)
